@@ -1,8 +1,581 @@
-//! engine `recoder` (stub — to be written)
+//! engine `recoder` (C14): the meta-block callback (IR) replays to exactly the input.
+//!
+//! Search stage (property oracle on the real code alone): the real encoder runs with `params.log_meta_block = true`
+//! and a callback that records, per meta-block, the IR command list (literals thawed against the `InputPair`) and the
+//! `InputPair` bytes.  An independent replay in this file (literals appended, copies resolved byte by byte against
+//! everything produced so far preceded by the effective custom-dictionary tail, dictionary commands expanded with
+//! brotli-decompressor's dictionary + `TransformDictionaryWord`, block switches ignored) must
+//!   * reproduce every meta-block's `InputPair` bytes and, in total, the input, byte for byte;
+//!   * find every copy distance in 1..=min(bytes produced + dictionary tail, 2^lgwin-16);
+//!   * find every dictionary command well formed (word length 4..24, id < 2^bits, transform < 121) and expanding to
+//!     exactly `final_size` bytes;
+//!   * find every literal's frozen offset equal to the replay cursor inside the meta-block (so literals, copies and
+//!     dictionary words tile the meta-block) and the meta-block slices tile the input (concatenation == input).
+//! Grid: quality 2..11 x lgwin {10,12,14,16,18,20,22} x mode x stride/high-entropy/cdf/prior detection levels x
+//! catable/appendable/magic/use_dictionary/large_window/lgblock x custom dictionary (none, 1, 2, mid, > window) x input
+//! kinds of engine `dict` incl. inputs longer than the ring buffer x chunking.
+//! non-trivial case = the encoder finished and at least one meta-block with a copy or dictionary command was replayed.
+//!
+//! Correspondence stage: `recoder pcq ...` — `process_command_queue` reached through the public (deprecated) wrappers
+//! `BrotliStoreMetaBlockFast / BrotliStoreMetaBlockTrivial / BrotliStoreMetaBlock / BrotliStoreUncompressedMetaBlock`
+//! with CRAFTED raw `Command` arrays (valid by construction, truncated, mutated), block-split descriptions (valid
+//! partitions and broken ones), ring masks 63..4095 with wrap positions everywhere, distance parameters, distance
+//! caches and recoder positions; the IR handed to the callback (and the returned recoder position, or `panic`)
+//! against `BV.Recoder.processCommandQueue`.  Dictionary-word expansions are recorded answers of the real
+//! `TransformDictionaryWord` on the real dictionary (field `words`), the two small dictionary tables are compared by
+//! `recoder tables`.
+//! Line format:
+//!   recoder pcq <variant> <lgwin> <npostfix> <ndirect> <hedq> <nbe> <dc0,dc1,dc2,dc3> <mask> <pos> <len> <ringhex>
+//!               <cmds ins:copyfield:extra:cmdprefix:distprefix;...|-> <btl> <btc> <btd> <words len:offset:hex|!,...|->
+//!   bt = <num_types>/<types,|->/<lengths,|->          variant = fast|trivial|full|unc
+//!   answer: `ok <nbe'> <ir tokens...>` | `panic`      tokens: L<off>,<len>,<he> C<dist>,<n> D<ws>,<tr>,<fs>,<id> l<t> c<t> d<t>
+//! Corpus: /verif/corpus/recoder/*.txt (lines in the `recoder pcq` request format are replayed first).
 use crate::util::*;
+use crate::prng::Rng;
+use crate::dict::{self, encode_stream_x, encode_oneshot, gen_dict, base_params, panic_msg, TEXT};
+use brotli::enc::BrotliEncoderParams;
+use brotli::enc::interface;
+use brotli::enc::interface::{Command as IrCmd, Unfreezable};
+use brotli::enc::StandardAlloc as EncAlloc;
+use brotli::enc::command::{BrotliDistanceParams, Command, ComputeDistanceCode};
+use brotli::enc::brotli_bit_stream::{self as bbs, MetaBlockSplit, RecoderState};
+use brotli::InputReferenceMut;
+use brotli::interface::InputPair;
+use brotli_decompressor::dictionary::{kBrotliDictionary, kBrotliDictionaryOffsetsByLength, kBrotliDictionarySizeBitsByLength};
+use brotli_decompressor::transform::TransformDictionaryWord;
+use alloc_no_stdlib::{Allocator, SliceWrapper, SliceWrapperMut};
+use std::panic::{catch_unwind, AssertUnwindSafe};
+
+#[derive(Clone, Debug, PartialEq)]
+pub enum Ir {
+    Lit { off: usize, len: usize, he: bool, bytes: Option<Vec<u8>> },
+    Copy { dist: u32, n: u32 },
+    Dict { ws: u8, tr: u8, fs: u8, id: u32 },
+    BsL(u8, u8),
+    BsC(u8),
+    BsD(u8),
+    Pm,
+}
+impl Ir {
+    pub fn token(&self) -> String {
+        match self {
+            Ir::Lit { off, len, he, .. } => format!("L{},{},{}", off, len, *he as u8),
+            Ir::Copy { dist, n } => format!("C{},{}", dist, n),
+            Ir::Dict { ws, tr, fs, id } => format!("D{},{},{},{}", ws, tr, fs, id),
+            Ir::BsL(t, _) => format!("l{}", t),
+            Ir::BsC(t) => format!("c{}", t),
+            Ir::BsD(t) => format!("d{}", t),
+            Ir::Pm => "P".to_string(),
+        }
+    }
+}
+#[derive(Clone, Debug)]
+pub struct Mb { pub ir: Vec<Ir>, pub bytes: Vec<u8>, pub len0: usize }
+
+pub fn record(cmds: &[interface::StaticCommand], mb: &InputPair) -> Mb {
+    let mut bytes = mb.0.data.to_vec();
+    bytes.extend_from_slice(mb.1.data);
+    let mut ir = Vec::with_capacity(cmds.len());
+    for c in cmds.iter() {
+        ir.push(match c {
+            IrCmd::Literal(l) => {
+                let th = l.data.thaw_pair(mb);
+                Ir::Lit { off: l.data.offset(), len: l.data.len(), he: l.high_entropy, bytes: th.ok().map(|r| r.data.to_vec()) }
+            }
+            IrCmd::Copy(c) => Ir::Copy { dist: c.distance, n: c.num_bytes },
+            IrCmd::Dict(d) => Ir::Dict { ws: d.word_size, tr: d.transform, fs: d.final_size, id: d.word_id },
+            IrCmd::BlockSwitchLiteral(b) => Ir::BsL(b.block_type(), b.stride()),
+            IrCmd::BlockSwitchCommand(b) => Ir::BsC(b.0),
+            IrCmd::BlockSwitchDistance(b) => Ir::BsD(b.0),
+            IrCmd::PredictionMode(_) => Ir::Pm,
+        });
+    }
+    Mb { ir, bytes, len0: mb.0.data.len() }
+}
+
+/// expansion of a static-dictionary word, `None` if the reference is malformed
+pub fn expand_word(ws: usize, id: usize, tr: usize) -> Option<Vec<u8>> {
+    if ws < 4 || ws > 24 || tr >= 121 { return None; }
+    let bits = kBrotliDictionarySizeBitsByLength[ws] as usize;
+    if id >= (1usize << bits) { return None; }
+    let start = kBrotliDictionaryOffsetsByLength[ws] as usize + id * ws;
+    let raw = &kBrotliDictionary[start..start + ws];
+    let mut dst = [0u8; 64];
+    let n = TransformDictionaryWord(&mut dst[..], raw, ws as i32, tr as i32);
+    Some(dst[..n as usize].to_vec())
+}
+
+pub struct ReplayStats { pub copies: u64, pub dicts: u64, pub lits: u64, pub copies_into_prefix: u64, pub split_literals: u64, pub block_switches: u64, pub wrapped_mbs: u64 }
+
+/// Independent replay of the logged IR. `prefix` = effective custom-dictionary tail. Err((kind, description)).
+pub fn replay(mbs: &[Mb], prefix: &[u8], input: &[u8], lgwin: i32) -> Result<ReplayStats, (String, String)> {
+    let window = (1usize << lgwin) - 16;
+    let mut out: Vec<u8> = prefix.to_vec();
+    let mut st = ReplayStats { copies: 0, dicts: 0, lits: 0, copies_into_prefix: 0, split_literals: 0, block_switches: 0, wrapped_mbs: 0 };
+    let mut consumed = 0usize;
+    for (mi, mb) in mbs.iter().enumerate() {
+        // slices tile the input
+        if consumed + mb.bytes.len() > input.len() || input[consumed..consumed + mb.bytes.len()] != mb.bytes[..] {
+            return Err(("slices-do-not-tile".into(), format!("meta-block {} slice ({} bytes) is not the input at offset {}", mi, mb.bytes.len(), consumed)));
+        }
+        if mb.len0 != mb.bytes.len() { st.wrapped_mbs += 1; }
+        let start = out.len();
+        let mut prev_lit = false;
+        for (ci, c) in mb.ir.iter().enumerate() {
+            let cursor = out.len() - start;
+            match c {
+                Ir::Lit { off, len, bytes, .. } => {
+                    let b = match bytes { Some(b) => b, None => return Err(("literal-unthawable".into(), format!("mb {} cmd {}: literal ({},{}) does not thaw against the InputPair", mi, ci, off, len))) };
+                    if *off != cursor || b.len() != *len || *len == 0 {
+                        return Err(("literal-offset".into(), format!("mb {} cmd {}: literal offset {} len {} (thawed {}) but replay cursor is {}", mi, ci, off, len, b.len(), cursor)));
+                    }
+                    out.extend_from_slice(b);
+                    st.lits += 1;
+                    if prev_lit { st.split_literals += 1; }
+                }
+                Ir::Copy { dist, n } => {
+                    let d = *dist as usize;
+                    if d == 0 || d > out.len() || d > window || *n == 0 {
+                        return Err(("copy-distance".into(), format!("mb {} cmd {}: copy distance {} num_bytes {} with {} bytes produced (+{} dictionary), window {}", mi, ci, d, n, out.len() - prefix.len(), prefix.len(), window)));
+                    }
+                    if d > out.len() - prefix.len() { st.copies_into_prefix += 1; }
+                    for _ in 0..*n { let b = out[out.len() - d]; out.push(b); }
+                    st.copies += 1;
+                }
+                Ir::Dict { ws, tr, fs, id } => {
+                    match expand_word(*ws as usize, *id as usize, *tr as usize) {
+                        Some(w) if w.len() == *fs as usize => { out.extend_from_slice(&w); st.dicts += 1; }
+                        Some(w) => return Err(("dict-final-size".into(), format!("mb {} cmd {}: dictionary word ({},{},{}) expands to {} bytes, final_size says {}", mi, ci, ws, id, tr, w.len(), fs))),
+                        None => return Err(("dict-malformed".into(), format!("mb {} cmd {}: dictionary command ({},{},{}) is not a valid reference", mi, ci, ws, id, tr))),
+                    }
+                }
+                Ir::BsL(..) | Ir::BsC(..) | Ir::BsD(..) => { st.block_switches += 1; }
+                Ir::Pm => {}
+            }
+            prev_lit = matches!(c, Ir::Lit { .. });
+            if out.len() - start > mb.bytes.len() {
+                return Err(("overrun".into(), format!("mb {} cmd {}: replay produced {} bytes, the meta-block slice has {}", mi, ci, out.len() - start, mb.bytes.len())));
+            }
+        }
+        if out[start..] != mb.bytes[..] {
+            let produced = &out[start..];
+            let fd = crate::dec::first_diff(produced, &mb.bytes);
+            return Err(("replay-mismatch".into(), format!("mb {}: replay produced {} bytes, slice has {}, first difference at {}", mi, produced.len(), mb.bytes.len(), fd)));
+        }
+        consumed += mb.bytes.len();
+    }
+    if consumed != input.len() {
+        return Err(("slices-do-not-tile".into(), format!("meta-block slices cover {} of {} input bytes", consumed, input.len())));
+    }
+    Ok(st)
+}
+
+// ------------------------------------------------------------------------------------------------ search
+
+#[derive(Clone, Debug)]
+struct RCase { lgwin: i32, q: i32, mode: u32, stride: u8, hedq: u8, cdf: u8, prior: u8, catable: bool, appendable: bool, magic: bool, use_dict: bool, large: bool, lgblock: i32, size_hint: usize, d: usize, dseed: u64, kind: u32, api: u32, iseed: u64 }
+impl RCase {
+    fn json(&self) -> String {
+        format!("{{\"lgwin\": {}, \"quality\": {}, \"mode\": {}, \"stride\": {}, \"hedq\": {}, \"cdf\": {}, \"prior\": {}, \"catable\": {}, \"appendable\": {}, \"magic\": {}, \"use_dictionary\": {}, \"large_window\": {}, \"lgblock\": {}, \"size_hint\": {}, \"d\": {}, \"dict_seed\": {}, \"kind\": {}, \"api\": {}, \"input_seed\": {}}}",
+            self.lgwin, self.q, self.mode, self.stride, self.hedq, self.cdf, self.prior, self.catable, self.appendable, self.magic, self.use_dict, self.large, self.lgblock, self.size_hint, self.d, self.dseed, self.kind, self.api, self.iseed)
+    }
+    fn params(&self) -> BrotliEncoderParams {
+        let mut p = base_params(self.q, self.lgwin);
+        p.mode = match self.mode { 1 => brotli::enc::backward_references::BrotliEncoderMode::BROTLI_MODE_TEXT, 2 => brotli::enc::backward_references::BrotliEncoderMode::BROTLI_MODE_FONT, _ => brotli::enc::backward_references::BrotliEncoderMode::BROTLI_MODE_GENERIC };
+        p.log_meta_block = true;
+        p.stride_detection_quality = self.stride;
+        p.high_entropy_detection_quality = self.hedq;
+        p.cdf_adaptation_detection = self.cdf;
+        p.prior_bitmask_detection = self.prior;
+        p.catable = self.catable;
+        p.appendable = self.appendable || self.catable;
+        p.magic_number = self.magic;
+        p.use_dictionary = self.use_dict;
+        p.large_window = self.large;
+        p.lgblock = self.lgblock;
+        p.size_hint = self.size_hint;
+        p
+    }
+}
+
+fn run_rcase(c: &RCase, rep: &mut Report) {
+    let dictv = gen_dict(c.dseed, c.d);
+    let dc = dict::Case { lgwin: c.lgwin, q: c.q, d: c.d, seed: c.dseed, magic: c.magic, kind: c.kind, api: c.api, iseed: c.iseed };
+    let input = dict::make_input(&dc, &dictv);
+    let p = c.params();
+    let mut mbs: Vec<Mb> = Vec::new();
+    let mut rng = Rng::new(c.iseed ^ 0x7ec0);
+    let enc: Result<Vec<u8>, String> = {
+        let mut cb = |_pm: &mut interface::PredictionModeContextMap<InputReferenceMut>, cmds: &mut [interface::StaticCommand], mb: InputPair, _a: &mut EncAlloc| { mbs.push(record(cmds, &mb)); };
+        match c.api {
+            0 => encode_stream_x(&input, &dictv, false, &p, &[1 << 22], 1 << 16, &mut cb).map(|x| x.0),
+            1 => { let chunks: Vec<usize> = (0..5).map(|_| rng.range(1, 40000) as usize).collect(); let oc = rng.range(1, 9000) as usize; encode_stream_x(&input, &dictv, false, &p, &chunks, oc, &mut cb).map(|x| x.0) }
+            _ => encode_oneshot(&input, &dictv, &p, rng.range(1, 70000) as usize, rng.range(1, 70000) as usize, &mut cb),
+        }
+    };
+    rep.evaluations += 1;
+    rep.count(&format!("quality.{}", c.q));
+    rep.count(&format!("lgwin.{}", c.lgwin));
+    rep.count(&format!("kind.{}", dict::KINDS[c.kind as usize]));
+    if c.d > 0 { rep.count("with_custom_dict"); }
+    if c.stride != 0 { rep.count(&format!("stride.{}", c.stride)); }
+    if c.hedq != 0 { rep.count("high_entropy_detection"); }
+    if c.cdf != 0 { rep.count("cdf_adaptation_detection"); }
+    if c.prior != 0 { rep.count("prior_bitmask_detection"); }
+    if c.catable { rep.count("catable"); } else if c.appendable { rep.count("appendable"); }
+    if c.large { rep.count("large_window"); }
+    let dtag = if c.d > 0 { "custom-dict" } else { "no-dict" };
+    let out = match enc {
+        Ok(o) => o,
+        Err(e) => {
+            let kind = if e.starts_with("panic") { "panic" } else if e == "livelock" { "livelock" } else { "encode-fail" };
+            rep.violation(&format!("recoder:{}:{}", kind, dtag), &format!("encoder with log_meta_block: {}", e), c.json());
+            return;
+        }
+    };
+    let w = (1usize << c.lgwin) - 16;
+    let prefix: &[u8] = if c.q >= 2 && c.d >= 1 { &dictv[c.d - c.d.min(w)..] } else { &[] };
+    match replay(&mbs, prefix, &input, c.lgwin) {
+        Ok(st) => {
+            rep.count("replay.ok");
+            rep.add("ir.copies", st.copies); rep.add("ir.dict_words", st.dicts); rep.add("ir.literals", st.lits);
+            rep.add("ir.copies_into_custom_dict", st.copies_into_prefix); rep.add("ir.literals_split_at_wrap_or_block", st.split_literals);
+            rep.add("ir.block_switches", st.block_switches); rep.add("mb.wrapped_input_pair", st.wrapped_mbs); rep.add("mb.count", mbs.len() as u64);
+            if st.copies + st.dicts > 0 { rep.nontrivial += 1; }
+            if input.len() > (1usize << (1 + c.lgwin.max(if c.q < 4 { 14 } else { 16 }))) { rep.count("input_longer_than_ring"); }
+        }
+        Err((kind, what)) => { rep.violation(&format!("recoder:{}:{}", kind, dtag), &what, c.json()); return; }
+    }
+    // the stream itself still decodes (callback must not disturb the stream)
+    if !matches!(crate::dec::decode_dict(&out, &dictv, input.len() + 1000), crate::dec::DResult::Ok(v) if v == input) {
+        rep.violation(&format!("recoder:stream-not-decodable:{}", dtag), "stream produced with log_meta_block does not decode to the input", c.json());
+    }
+}
+
+fn rcases(thorough: bool, seed: u64) -> Vec<RCase> {
+    let mut rng = Rng::new(seed ^ 0x4ec0_de4);
+    let mut cs = Vec::new();
+    let n = if thorough { 6000 } else { 900 };
+    for i in 0..n {
+        let q = 2 + (i % 10) as i32;
+        let lgwin = *rng.pick(&[10i32, 10, 12, 12, 14, 16, 16, 18, 20, 22]);
+        let w = 1usize << lgwin;
+        let d = match rng.below(8) { 0 | 1 | 2 => 0, 3 => 1, 4 => 2, 5 => rng.range(3, (w - 20) as u64) as usize, 6 => *rng.pick(&[w - 17, w - 16, w - 15]), _ => w + rng.range(1, 5000) as usize };
+        let long = rng.chance(1, 12) && lgwin <= 16 && (q < 10 || lgwin <= 12);
+        let catable = rng.chance(1, 5);
+        cs.push(RCase {
+            lgwin, q, mode: rng.below(3) as u32,
+            stride: *rng.pick(&[0u8, 0, 0, 1, 2, 3, 4]), hedq: *rng.pick(&[0u8, 0, 1, 2]), cdf: *rng.pick(&[0u8, 0, 0, 1, 2]), prior: *rng.pick(&[0u8, 0, 1]),
+            catable, appendable: rng.chance(1, 4), magic: rng.chance(1, 3), use_dict: if catable { rng.chance(1, 4) } else { !rng.chance(1, 6) },
+            large: rng.chance(1, 8), lgblock: *rng.pick(&[0i32, 0, 0, 16, 17, 18, 20]), size_hint: *rng.pick(&[0usize, 0, 0, 1 << 20, 1 << 23]),
+            d, dseed: rng.below(251), kind: if long { 4 } else { rng.below(4) as u32 }, api: rng.below(3) as u32, iseed: rng.next() >> 16,
+        });
+    }
+    cs
+}
+
+// ------------------------------------------------------------------------------------------------ correspondence (crafted)
+
+#[derive(Clone, Debug, Default)]
+struct Split { num_types: usize, types: Vec<u8>, lengths: Vec<u32> }
+impl Split {
+    fn tok(&self) -> String {
+        let j = |v: Vec<String>| if v.is_empty() { "-".to_string() } else { v.join(",") };
+        format!("{}/{}/{}", self.num_types, j(self.types.iter().map(|x| x.to_string()).collect()), j(self.lengths.iter().map(|x| x.to_string()).collect()))
+    }
+}
+#[derive(Clone, Debug)]
+struct Crafted { variant: u32, lgwin: i32, npostfix: u32, ndirect: u32, hedq: u8, nbe: usize, dc: [i32; 4], mask: usize, pos: usize, len: usize, ring: Vec<u8>, cmds: Vec<Command>, btl: Split, btc: Split, btd: Split }
+const VARIANTS: [&str; 4] = ["fast", "trivial", "full", "unc"];
+
+fn cmd_tok(c: &Command) -> String { format!("{}:{}:{}:{}:{}", c.insert_len_, c.copy_len_, c.dist_extra_, c.cmd_prefix_, c.dist_prefix_) }
+
+/// what `TransformDictionaryWord` answers for (copy_len, dictionary_offset): recorded for the model
+fn word_answer(copy_len: usize, off: usize) -> Option<String> {
+    if copy_len < 4 || copy_len >= 25 { return None; }
+    let bits = kBrotliDictionarySizeBitsByLength[copy_len] as usize;
+    let action = off >> bits;
+    let sub = off & ((1 << bits) - 1);
+    let idx = sub * copy_len + kBrotliDictionaryOffsetsByLength[copy_len] as usize;
+    if idx + copy_len > kBrotliDictionary.len() { return None; }
+    if action >= 121 { return Some("!".to_string()); }
+    let mut dst = [0u8; 64];
+    let n = TransformDictionaryWord(&mut dst[..], &kBrotliDictionary[idx..idx + copy_len], copy_len as i32, action as i32);
+    Some(hex(&dst[..n as usize]))
+}
+
+/// which (copy_len, dictionary_offset) pairs can be asked for: a walk with the recoder's arithmetic (only to attach
+/// recorded answers; a missing answer shows up as `missing-word` in the model's reply)
+fn needed_words(c: &Crafted) -> Vec<(usize, usize)> {
+    let mut need = Vec::new();
+    let mut cache = c.dc;
+    let mut nbe = c.nbe;
+    let mut mb_len = c.len;
+    let window = (1usize << c.lgwin).wrapping_sub(16);
+    let dist = BrotliDistanceParams { distance_postfix_bits: c.npostfix, num_direct_distance_codes: c.ndirect, alphabet_size: 0, max_distance: 0 };
+    let cmds: Vec<Command> = if c.variant == 3 { vec![Command { insert_len_: c.len as u32, copy_len_: 0, dist_extra_: 0, cmd_prefix_: 0, dist_prefix_: 0 }] } else { c.cmds.clone() };
+    for cmd in cmds.iter() {
+        let ins = (cmd.insert_len_ as usize).min(mb_len);
+        nbe += ins;
+        mb_len -= ins;
+        let r = catch_unwind(|| (bbs::verif_hooks::copy_len_code(cmd) as usize, cmd.distance_index_and_offset(&dist)));
+        let (copy_len, (idx, off)) = match r { Ok(x) => x, Err(_) => break };
+        let fd = if idx == 0 { off as usize } else { (cache[idx - 1] as isize).wrapping_add(off) as usize };
+        let maxd = nbe.min(window);
+        let actual;
+        if fd > maxd {
+            let o = fd - maxd - 1;
+            need.push((copy_len, o));
+            match word_answer(copy_len, o) { Some(h) if h != "!" => { let n = if h == "-" { 0 } else { h.len() / 2 }; if n <= mb_len { actual = n; } else { actual = mb_len; } } _ => break }
+            mb_len -= actual;
+        } else {
+            actual = mb_len.min(copy_len);
+            mb_len -= actual;
+            if idx != 1 || off != 0 { cache = [fd as i32, cache[0], cache[1], cache[2]]; }
+        }
+        nbe += actual;
+    }
+    need
+}
+
+fn crafted_line(c: &Crafted) -> String {
+    let cm = if c.cmds.is_empty() { "-".to_string() } else { c.cmds.iter().map(cmd_tok).collect::<Vec<_>>().join(";") };
+    let mut words: Vec<String> = Vec::new();
+    let mut seen = std::collections::BTreeSet::new();
+    for (l, o) in needed_words(c) { if seen.insert((l, o)) { if let Some(h) = word_answer(l, o) { words.push(format!("{}:{}:{}", l, o, h)); } } }
+    format!("recoder pcq {} {} {} {} {} {} {},{},{},{} {} {} {} {} {} {} {} {} {}",
+        VARIANTS[c.variant as usize], c.lgwin, c.npostfix, c.ndirect, c.hedq, c.nbe, c.dc[0], c.dc[1], c.dc[2], c.dc[3], c.mask, c.pos, c.len, hex(&c.ring),
+        cm, c.btl.tok(), c.btc.tok(), c.btd.tok(), if words.is_empty() { "-".to_string() } else { words.join(",") })
+}
+
+fn parse_split(s: &str) -> Option<Split> {
+    let f: Vec<&str> = s.split('/').collect();
+    if f.len() != 3 { return None; }
+    let l = |x: &str| -> Vec<u64> { if x == "-" { vec![] } else { x.split(',').filter_map(|y| y.parse().ok()).collect() } };
+    Some(Split { num_types: f[0].parse().ok()?, types: l(f[1]).iter().map(|x| *x as u8).collect(), lengths: l(f[2]).iter().map(|x| *x as u32).collect() })
+}
+fn parse_crafted(line: &str) -> Option<Crafted> {
+    let f: Vec<&str> = line.split_whitespace().collect();
+    if f.len() != 19 || f[0] != "recoder" || f[1] != "pcq" { return None; }
+    let variant = VARIANTS.iter().position(|v| *v == f[2])? as u32;
+    let dcv: Vec<i32> = f[8].split(',').filter_map(|x| x.parse().ok()).collect();
+    if dcv.len() != 4 { return None; }
+    let cmds = if f[13] == "-" { vec![] } else { f[13].split(';').filter_map(|t| { let v: Vec<u64> = t.split(':').filter_map(|x| x.parse().ok()).collect(); if v.len() == 5 { Some(Command { insert_len_: v[0] as u32, copy_len_: v[1] as u32, dist_extra_: v[2] as u32, cmd_prefix_: v[3] as u16, dist_prefix_: v[4] as u16 }) } else { None } }).collect() };
+    Some(Crafted { variant, lgwin: f[3].parse().ok()?, npostfix: f[4].parse().ok()?, ndirect: f[5].parse().ok()?, hedq: f[6].parse().ok()?, nbe: f[7].parse().ok()?, dc: [dcv[0], dcv[1], dcv[2], dcv[3]],
+        mask: f[9].parse().ok()?, pos: f[10].parse().ok()?, len: f[11].parse().ok()?, ring: unhex(f[12]), cmds, btl: parse_split(f[14])?, btc: parse_split(f[15])?, btd: parse_split(f[16])? })
+}
+
+struct Stop;
+
+/// run the real recoder on a crafted case: Some((nbe', ir)) or None = panic before the callback
+fn run_crafted(c: &Crafted) -> Option<(usize, Vec<Ir>)> {
+    let mut got: Option<Vec<Ir>> = None;
+    let mut rs = RecoderState { num_bytes_encoded: c.nbe };
+    let mut p = base_params(5, c.lgwin);
+    p.log_meta_block = true;
+    p.high_entropy_detection_quality = c.hedq;
+    p.dist = BrotliDistanceParams { distance_postfix_bits: c.npostfix, num_direct_distance_codes: c.ndirect, alphabet_size: 16 + c.ndirect + (48 << c.npostfix), max_distance: 0x3ff_fffc };
+    let _ = catch_unwind(AssertUnwindSafe(|| {
+        let mut alloc = EncAlloc::default();
+        let mut storage = vec![0u8; 4 * c.len + 4096];
+        let mut six = 0usize;
+        let mut cb = |_pm: &mut interface::PredictionModeContextMap<InputReferenceMut>, cmds: &mut [interface::StaticCommand], mb: InputPair, _a: &mut EncAlloc| {
+            let m = record(cmds, &mb);
+            got = Some(m.ir.into_iter().map(|x| match x { Ir::Lit { off, len, he, .. } => Ir::Lit { off, len, he, bytes: None }, o => o }).collect());
+            std::panic::panic_any(Stop);
+        };
+        match c.variant {
+            0 => bbs::BrotliStoreMetaBlockFast(&mut alloc, &c.ring, c.pos, c.len, c.mask, 0, &p, &c.dc, &c.cmds, c.cmds.len(), &mut rs, &mut six, &mut storage, &mut cb),
+            1 => bbs::BrotliStoreMetaBlockTrivial(&mut alloc, &c.ring, c.pos, c.len, c.mask, 0, &p, &c.dc, &c.cmds, c.cmds.len(), &mut rs, &mut six, &mut storage, &mut cb),
+            2 => {
+                let mut mb = MetaBlockSplit::<EncAlloc>::new();
+                let fill = |a: &mut EncAlloc, s: &Split, dst: &mut brotli::enc::block_split::BlockSplit<EncAlloc>| {
+                    dst.num_types = s.num_types;
+                    dst.num_blocks = s.types.len().min(s.lengths.len());
+                    let mut t = <EncAlloc as Allocator<u8>>::alloc_cell(a, s.types.len());
+                    t.slice_mut().copy_from_slice(&s.types);
+                    let mut l = <EncAlloc as Allocator<u32>>::alloc_cell(a, s.lengths.len());
+                    l.slice_mut().copy_from_slice(&s.lengths);
+                    dst.types = t;
+                    dst.lengths = l;
+                };
+                fill(&mut alloc, &c.btl, &mut mb.literal_split);
+                fill(&mut alloc, &c.btc, &mut mb.command_split);
+                fill(&mut alloc, &c.btd, &mut mb.distance_split);
+                bbs::BrotliStoreMetaBlock(&mut alloc, &c.ring, c.pos, c.len, c.mask, 0, 0, 0, &p, brotli::enc::histogram::ContextType::CONTEXT_UTF8, &c.dc, &c.cmds, c.cmds.len(), &mut mb, &mut rs, &mut six, &mut storage, &mut cb)
+            }
+            _ => bbs::BrotliStoreUncompressedMetaBlock(&mut alloc, 0, &c.ring, c.pos, c.mask, &p, c.len, &mut rs, &mut six, &mut storage, false, &mut cb),
+        }
+    }));
+    got.map(|ir| (rs.num_bytes_encoded, ir))
+}
+
+fn answer(r: &Option<(usize, Vec<Ir>)>) -> String {
+    match r { None => "panic".to_string(), Some((nbe, ir)) => { let mut s = format!("ok {}", nbe); for t in ir { s.push(' '); s.push_str(&t.token()); } s } }
+}
+
+/// `allow_zero`: zero-length blocks are generated only for the literal split: for the command / distance splits a zero
+/// count makes `btypec_sub -= 1` underflow (panic under debug semantics = the model's outcome, silent wrap in this
+/// release build), so those inputs are outside the overflow-free domain of the correspondence.
+fn gen_split(rng: &mut Rng, total: usize, broken: bool, allow_zero: bool) -> Split {
+    // a partition of `total` items into blocks with types; sometimes trivially one type
+    if total == 0 || rng.chance(1, 3) { return if rng.chance(1, 2) { Split { num_types: 1, types: vec![], lengths: vec![] } } else { Split { num_types: 1, types: vec![0], lengths: vec![total as u32] } }; }
+    let nb = rng.range(2, 6.min(total as u64).max(2)) as usize;
+    let nt = rng.range(2, 4) as usize;
+    let mut lengths = Vec::new();
+    let mut left = total;
+    for i in 0..nb { let l = if i + 1 == nb { left } else { rng.range(if left > 0 { 1 } else { 0 }, (left / 2).max(1) as u64).min(left as u64) as usize }; if l == 0 && !allow_zero { break; } lengths.push(l as u32); left -= l; }
+    let nb = lengths.len();
+    if nb == 0 { return Split { num_types: 1, types: vec![], lengths: vec![] }; }
+    let mut types: Vec<u8> = (0..nb).map(|i| if i < nt { i as u8 } else { rng.below(nt as u64) as u8 }).collect();
+    types[0] = 0;
+    let num_types = *types.iter().max().unwrap() as usize + 1;
+    let mut s = Split { num_types, types, lengths };
+    if broken {
+        match rng.below(5) {
+            0 => { let k = s.lengths.len() - 1; s.lengths[k] = s.lengths[k].saturating_sub(rng.range(1, 3) as u32).max(if allow_zero { 0 } else { 1 }); } // too short: runs out of blocks
+            1 => { s.lengths.truncate(s.lengths.len() - 1); s.types.truncate(s.types.len() - 1); s.num_types = *s.types.iter().max().unwrap_or(&0) as usize + 1; }
+            2 => { s.num_types += 1; }                       // assert in LogMetaBlock
+            3 => { let k = rng.below(s.lengths.len() as u64) as usize; if allow_zero { s.lengths[k] = 0; } }
+            _ => { s.lengths.push(7); s.types.push(0); }
+        }
+    }
+    s
+}
+
+fn gen_crafted(rng: &mut Rng) -> Crafted {
+    let lgwin = *rng.pick(&[10i32, 10, 11, 12, 16, 22]);
+    let window = (1usize << lgwin) - 16;
+    let (npostfix, ndirect) = match rng.below(4) { 0 | 1 => (0u32, 0u32), 2 => (1, 12), _ => { let np = rng.below(4) as u32; (np, (rng.below(16) as u32) << np) } };
+    let mask = (1usize << rng.range(6, 12)) - 1;
+    let len = if rng.chance(1, 10) { rng.below(4) as usize } else { rng.range(4, (mask + 1).min(1500) as u64) as usize };
+    let pos = match rng.below(4) { 0 => rng.below(3 * (mask as u64 + 1)) as usize, 1 => (mask + 1 - (len / 2).min(mask)) + (mask + 1) * rng.below(3) as usize, 2 => (mask + 1) * rng.below(3) as usize, _ => (mask + 1).saturating_sub(len) };
+    let nbe = match rng.below(5) { 0 => 0, 1 => rng.below(40) as usize, 2 => window + rng.below(100) as usize, 3 => window.saturating_sub(rng.below(len as u64 + 20) as usize), _ => rng.below(3000) as usize };
+    let mut dc = [4i32, 11, 15, 16];
+    if rng.chance(1, 3) { for x in dc.iter_mut() { *x = rng.range(1, 200) as i32; } }
+    if rng.chance(1, 12) { dc = [0x7ffffff0; 4]; }
+    let variant = *rng.pick(&[0u32, 1, 2, 2, 2, 2, 3]);
+    let hedq = *rng.pick(&[0u8, 0, 1]);
+    let mut ring: Vec<u8> = (0..mask + 1).map(|_| rng.next() as u8).collect();
+    let dist = BrotliDistanceParams { distance_postfix_bits: npostfix, num_direct_distance_codes: ndirect, alphabet_size: 0, max_distance: 0 };
+    // build commands + bytes together
+    let mut cmds: Vec<Command> = Vec::new();
+    let mut bytes: Vec<u8> = Vec::new();
+    let mut cache = dc;
+    let mut run = nbe;
+    let truncating = rng.chance(1, 6);
+    let mut n_lit = 0usize; let mut n_dist = 0usize;
+    while bytes.len() < len && cmds.len() < 60 {
+        let rem = len - bytes.len();
+        let ins = if rng.chance(1, 4) { 0 } else { rng.range(1, 30.min(rem as u64)) as usize };
+        for _ in 0..ins { bytes.push(rng.next() as u8); }
+        n_lit += ins;
+        run += ins;
+        let rem = len - bytes.len();
+        if rem == 0 && !truncating { let mut c = Command::default(); c.init_insert(ins); cmds.push(c); break; }
+        let maxd = run.min(window);
+        if rng.chance(1, 5) {
+            // static dictionary word
+            let ws = rng.range(4, 24) as usize;
+            let bits = kBrotliDictionarySizeBitsByLength[ws] as usize;
+            let id = rng.below(1 << bits) as usize;
+            let tr = if rng.chance(1, 2) { 0 } else { rng.below(121) as usize };
+            let w = expand_word(ws, id, tr).unwrap();
+            let distance = maxd + 1 + id + (tr << bits);
+            cmds.push(Command::new(&dist, ins, w.len(), ws, distance + 15));
+            if w.len() <= rem || truncating { let k = w.len().min(rem); bytes.extend_from_slice(&w[..k]); run += k; } else { bytes.extend_from_slice(&w[..rem]); run += rem; }
+        } else {
+            let clen = if truncating && rng.chance(1, 3) { rem + rng.range(1, 20) as usize } else { rng.range(2, (rem as u64).max(2).min(70)) as usize };
+            let distance = match rng.below(6) { 0 => cache[rng.below(4) as usize] as usize, 1 => (cache[rng.below(2) as usize] as usize).wrapping_add(rng.below(7) as usize).wrapping_sub(3), 2 => rng.range(1, 16) as usize, 3 => maxd, _ => rng.range(1, maxd.max(1) as u64) as usize };
+            let distance = if distance == 0 || distance > 0x3ff_fff0 { 1 } else { distance };
+            let code = ComputeDistanceCode(distance, maxd, &cache);
+            if distance <= maxd && code > 0 { cache = [distance as i32, cache[0], cache[1], cache[2]]; }
+            let c = Command::new(&dist, ins, clen, clen, code);
+            if c.cmd_prefix_ >= 128 { n_dist += 1; }
+            cmds.push(c);
+            let k = clen.min(rem);
+            for _ in 0..k { bytes.push(rng.next() as u8); }
+            run += k;
+        }
+    }
+    bytes.resize(len, 0x55);
+    // place the bytes into the ring at pos (wrapping)
+    for (i, b) in bytes.iter().enumerate() { ring[(pos + i) & mask] = *b; }
+    // mutations
+    if rng.chance(1, 7) && !cmds.is_empty() {
+        let k = rng.below(cmds.len() as u64) as usize;
+        match rng.below(6) {
+            0 => cmds[k].insert_len_ = cmds[k].insert_len_.wrapping_add(rng.range(1, 2000) as u32),
+            1 => cmds[k].copy_len_ = rng.next() as u32,
+            2 => cmds[k].dist_prefix_ = rng.next() as u16,
+            3 => cmds[k].dist_extra_ = rng.next() as u32 & 0xffffff,
+            4 => { cmds.truncate(k); }
+            _ => cmds[k].cmd_prefix_ = rng.next() as u16 % 704,
+        }
+    }
+    if rng.chance(1, 25) { ring.truncate(mask + 1 - rng.range(1, 8) as usize); }
+    let broken = rng.chance(1, 8);
+    let (b1, b2, b3) = (rng.chance(1, 2), rng.chance(1, 2), rng.chance(1, 2));
+    let btl = if variant == 2 { gen_split(rng, n_lit, broken && b1, true) } else { Split { num_types: 1, types: vec![], lengths: vec![] } };
+    let btc = if variant == 2 { gen_split(rng, cmds.len(), broken && b2, false) } else { Split { num_types: 1, types: vec![], lengths: vec![] } };
+    let btd = if variant == 2 { gen_split(rng, n_dist, broken && b3, false) } else { Split { num_types: 1, types: vec![], lengths: vec![] } };
+    Crafted { variant, lgwin, npostfix, ndirect, hedq, nbe, dc, mask, pos, len, ring, cmds, btl, btc, btd }
+}
+
+fn tables_answer() -> String {
+    format!("bits={} offsets={} dictlen={}", kBrotliDictionarySizeBitsByLength.iter().map(|x| x.to_string()).collect::<Vec<_>>().join(","),
+        kBrotliDictionaryOffsetsByLength.iter().map(|x| x.to_string()).collect::<Vec<_>>().join(","), kBrotliDictionary.len())
+}
+
 pub fn run_cmd(args: &Args) {
-    let corr = Corr::new(&args.out);
-    let rep = Report::default();
+    let thorough = args.tier == "thorough";
+    let mut corr = Corr::new(&args.out);
+    let mut rep = Report::default();
+    std::panic::set_hook(Box::new(|_| {}));
+
+    // ---- correspondence
+    corr.case("recoder tables", &tables_answer());
+    if let Ok(rd) = std::fs::read_dir("/verif/corpus/recoder") {
+        let mut files: Vec<_> = rd.filter_map(|e| e.ok()).map(|e| e.path()).collect();
+        files.sort();
+        for f in files { if let Ok(t) = std::fs::read_to_string(&f) { for l in t.lines() { if let Some(c) = parse_crafted(l) { corr.case(&crafted_line(&c), &answer(&run_crafted(&c))); rep.count("corr.corpus"); } } } }
+    }
+    let n = if thorough { 200_000 } else { 24_000 };
+    let seed = args.seed;
+    let res = par_tasks(64, move |t| {
+        let mut rng = Rng::new(seed ^ 0xc4af7ed ^ ((t as u64) << 20));
+        let mut lines = Vec::new();
+        let mut r = Report::default();
+        for _ in 0..n / 64 {
+            let c = gen_crafted(&mut rng);
+            let got = run_crafted(&c);
+            let line = crafted_line(&c);
+            if line.len() >= 65000 { continue; }
+            match &got {
+                None => r.count("corr.panic"),
+                Some((_, ir)) => {
+                    r.count("corr.ok");
+                    r.count(&format!("corr.variant.{}", VARIANTS[c.variant as usize]));
+                    if ir.iter().any(|x| matches!(x, Ir::Dict { .. })) { r.count("corr.with_dict_word"); }
+                    if ir.iter().any(|x| matches!(x, Ir::BsL(t, _) if *t != 0)) { r.count("corr.with_literal_block_switch"); }
+                    if ir.iter().any(|x| matches!(x, Ir::BsC(_))) { r.count("corr.with_command_block_switch"); }
+                    if ir.iter().any(|x| matches!(x, Ir::BsD(_))) { r.count("corr.with_distance_block_switch"); }
+                    if (c.pos & c.mask) + c.len > c.mask + 1 { r.count("corr.wrapped_input_pair"); }
+                    if ir.iter().any(|x| matches!(x, Ir::Lit { he: true, .. })) { r.count("corr.high_entropy_literal"); }
+                }
+            }
+            lines.push((line, answer(&got)));
+        }
+        (lines, r)
+    });
+    for (lines, r) in res { for (o, a) in lines { corr.case(&o, &a); } rep.merge(r); }
+
+    // ---- search
+    let cs = std::sync::Arc::new(rcases(thorough, args.seed));
+    let cs2 = cs.clone();
+    let reps = par_tasks(cs.len(), move |i| { let mut r = Report::default(); run_rcase(&cs2[i], &mut r); r });
+    for r in reps { rep.merge(r); }
+    let _ = std::panic::take_hook();
     corr.finish();
     rep.write(&args.out);
 }
